@@ -95,9 +95,10 @@ QUERY_VALUE_IN_URL_TEMPLATE = r"(?:^|[?&])(%s)=([^&]+)"
 QUERY_VALUE_TEMPLATE = r"%s=([^&]+)"
 
 # NOTE: the userinfo cannot contain "/", "?" or "#" and the host ends at the
-# first ":", "/", "?" or "#" (%s must therefore not match those either)
+# first ":", "/", "?" or "#" (%s must therefore not match those either), a ":"
+# being followed by a port only (else it belongs to a "user:password@" prefix)
 DOMAIN_LABEL = r"[^.:/?#@\s]+"
-DOMAIN_TEMPLATE = r"^(?:https?:)?(?://)?(?:[^/?#@\s]*@)?%s(?:[:/?#]|\s*$)"
+DOMAIN_TEMPLATE = r"^(?:https?:)?(?://)?(?:[^/?#@\s]*@)?%s(?::\d*)?(?:[/?#]|\s*$)"
 
 SCRIPT_TAG = r"<script\b[^<]*(?:(?!<\/script>)<[^<]*)*<\/script>"
 SCRIPT_TAG_BINARY = SCRIPT_TAG.encode()
